@@ -3,6 +3,8 @@ package props
 import (
 	"bufio"
 	"fmt"
+	"os"
+	"path/filepath"
 	"reflect"
 	"strconv"
 	"strings"
@@ -439,6 +441,11 @@ func init() {
 	// law: accessors agree with the fields
 	codecImpl["law-accessors"] = func(a []string) string {
 		kind, text := a[0], core.MustUnHex(a[1])
+		if len(text)%4 == 0 {
+			if v := fileEntryLaw(kind, text); v != "ok" {
+				return v
+			}
+		}
 		rd := bufio.NewReader(strings.NewReader(text))
 		switch kind {
 		case "DSC":
@@ -586,6 +593,104 @@ type embedDSC struct {
 	Extra string `control:"X-Extra"`
 }
 
+// fileEntryLaw: the file entry points (ParseDscFile, ParseChangesFile, ParseControlFile,
+// Changes.GetDSC) however the path is spelled - absolute, relative to the working directory,
+// with redundant components - give a handle whose Filename is the absolute, cleaned path and
+// whose AbsFiles() are absolute paths in the control file's directory.
+func fileEntryLaw(kind, text string) string {
+	if kind != "DSC" && kind != "Changes" && kind != "Control" {
+		return "ok"
+	}
+	dir, err := os.MkdirTemp("", "verif-docfile-")
+	if err != nil {
+		return "ok"
+	}
+	defer os.RemoveAll(dir)
+	if d, err := filepath.EvalSymlinks(dir); err == nil {
+		dir = d
+	}
+	name := map[string]string{"DSC": "foo_1.0.dsc", "Changes": "foo_1.0_amd64.changes", "Control": "control"}[kind]
+	abs := filepath.Join(dir, name)
+	os.WriteFile(abs, []byte(text), 0o644)
+	cwd, err := os.Getwd()
+	if err != nil {
+		return "ok"
+	}
+	rel, err := filepath.Rel(cwd, abs)
+	if err != nil {
+		return "ok"
+	}
+	spellings := []string{abs, rel, "./" + rel, filepath.Dir(rel) + "/./sub/../" + name, dir + "//" + name}
+	for _, sp := range spellings {
+		switch kind {
+		case "DSC":
+			d, err := control.ParseDscFile(sp)
+			ref, rerr := control.ParseDsc(bufio.NewReader(strings.NewReader(text)), abs)
+			if (err == nil) != (rerr == nil) {
+				return fmt.Sprintf("FAIL ParseDscFile(%q): %v, ParseDsc on the same text: %v", sp, err, rerr)
+			}
+			if err != nil {
+				continue
+			}
+			if d.Filename != abs {
+				return fmt.Sprintf("FAIL ParseDscFile(%q).Filename = %q, the file is %q", sp, d.Filename, abs)
+			}
+			if len(d.AbsFiles()) != len(ref.Files) {
+				return "FAIL AbsFiles length through ParseDscFile"
+			}
+			for i, f := range d.AbsFiles() {
+				if plainName(ref.Files[i].Filename) && f.Filename != dir+"/"+ref.Files[i].Filename {
+					return fmt.Sprintf("FAIL ParseDscFile(%q).AbsFiles()[%d] = %q, want %q", sp, i, f.Filename, dir+"/"+ref.Files[i].Filename)
+				}
+			}
+		case "Changes":
+			c, err := control.ParseChangesFile(sp)
+			ref, rerr := control.ParseChanges(bufio.NewReader(strings.NewReader(text)), abs)
+			if (err == nil) != (rerr == nil) {
+				return fmt.Sprintf("FAIL ParseChangesFile(%q): %v, ParseChanges on the same text: %v", sp, err, rerr)
+			}
+			if err != nil {
+				continue
+			}
+			if c.Filename != abs {
+				return fmt.Sprintf("FAIL ParseChangesFile(%q).Filename = %q, the file is %q", sp, c.Filename, abs)
+			}
+			for i, f := range c.AbsFiles() {
+				if plainName(ref.Files[i].Filename) && f.Filename != dir+"/"+ref.Files[i].Filename {
+					return fmt.Sprintf("FAIL ParseChangesFile(%q).AbsFiles()[%d] = %q", sp, i, f.Filename)
+				}
+			}
+			// the .dsc it lists, parsed through the handle
+			for _, f := range ref.Files {
+				if strings.HasSuffix(f.Filename, ".dsc") && plainName(f.Filename) {
+					dscText := "Format: 1.0\nSource: foo\nVersion: 1.0\nMaintainer: A <a@b>\nFiles:\n d41d8cd98f00b204e9800998ecf8427e 0 foo_1.0.tar.gz\n"
+					os.WriteFile(dir+"/"+f.Filename, []byte(dscText), 0o644)
+					for _, h := range []*control.Changes{c, ref} {
+						d, err := h.GetDSC()
+						if err != nil {
+							return fmt.Sprintf("FAIL GetDSC() through %q: %v", sp, err)
+						}
+						if d.Filename != dir+"/"+f.Filename || len(d.AbsFiles()) != 1 || d.AbsFiles()[0].Filename != dir+"/foo_1.0.tar.gz" {
+							return fmt.Sprintf("FAIL GetDSC() through %q: Filename %q AbsFiles %v", sp, d.Filename, d.AbsFiles())
+						}
+					}
+					break
+				}
+			}
+		case "Control":
+			c, err := control.ParseControlFile(sp)
+			_, rerr := control.ParseControl(bufio.NewReader(strings.NewReader(text)), abs)
+			if (err == nil) != (rerr == nil) {
+				return fmt.Sprintf("FAIL ParseControlFile(%q): %v, ParseControl on the same text: %v", sp, err, rerr)
+			}
+			if err == nil && c.Filename != abs {
+				return fmt.Sprintf("FAIL ParseControlFile(%q).Filename = %q, the file is %q", sp, c.Filename, abs)
+			}
+		}
+	}
+	return "ok"
+}
+
 func init() {
 	// law: a document type decodes the same on its own and embedded in an application struct
 	codecImpl["law-docembed"] = func(a []string) string {
@@ -689,7 +794,7 @@ func init() {
 			"fingerprint:control.DSC.Maintainers", "fingerprint:control.DSC.HasArchAll", "fingerprint:control.DSC.AbsFiles", "fingerprint:control.DSC.DebianSource",
 			"fingerprint:control.BinaryIndex.SourcePackage", "fingerprint:control.BestChecksums.Checksums", "fingerprint:control.Paragraph.getOptionalDependencyField"},
 		Streams: []core.Stream{{Name: "docs", Gen: streamDocs,
-			Domain: "per document kind (.dsc, .changes, debian/control source and binary paragraphs, Packages, Sources, BestChecksums, .deb control): models with every field present/absent, list lengths 1-4, folded vs single-line lists, folded dependency fields, 1-3 checksum/file entries, unknown extra fields, rendered in the real Debian layout; typed entry points (ParseDsc, ParseChanges, ParseControl, ParseBinaryIndex, ParseSourceIndex, Unmarshal) vs the schema-interpreter model on the reflect-derived schema; law-doc: every Debian field lands in the expected struct field with the expected parsed value; law-accessors: Maintainers, HasArchAll, AbsFiles, DebianSource, SourcePackage, Get*Depends, Checksums; single-edit corruptions (model = implementation)"}},
+			Domain: "per document kind (.dsc, .changes, debian/control source and binary paragraphs, Packages, Sources, BestChecksums, .deb control): models with every field present/absent, list lengths 1-4, folded vs single-line lists, folded dependency fields, 1-3 checksum/file entries, unknown extra fields, rendered in the real Debian layout; typed entry points (ParseDsc, ParseChanges, ParseControl, ParseBinaryIndex, ParseSourceIndex, Unmarshal) vs the schema-interpreter model on the reflect-derived schema; law-doc: every Debian field lands in the expected struct field with the expected parsed value; law-accessors: Maintainers, HasArchAll, AbsFiles, DebianSource, SourcePackage, Get*Depends, Checksums; the file entry points (ParseDscFile, ParseChangesFile, ParseControlFile, Changes.GetDSC) on absolute, relative and redundant spellings of the path: Filename absolute and cleaned, AbsFiles in the control file's directory; single-edit corruptions (model = implementation)"}},
 		Impl: codecImpl, Readable: docsReadable, TrustedBase: tb,
 	})
 }
